@@ -56,7 +56,7 @@ func Win(L, nbg int, emit Emit) {
 	}
 }
 
-// Ham enumerates every entropy within Hamming distance <= r (r in 0..2) of
+// Ham enumerates every entropy within Hamming distance <= r (r in 0..3) of
 // all-zeros and of all-ones.
 func Ham(L, r int, emit Emit) {
 	N := 8 * L
@@ -76,6 +76,19 @@ func Ham(L, r int, emit Emit) {
 					flipBit(e, i)
 					flipBit(e, j)
 					emit(e)
+				}
+			}
+		}
+		if r >= 3 {
+			for i := 0; i < N; i++ {
+				for j := i + 1; j < N; j++ {
+					for k := j + 1; k < N; k++ {
+						e := fill(L, b)
+						flipBit(e, i)
+						flipBit(e, j)
+						flipBit(e, k)
+						emit(e)
+					}
 				}
 			}
 		}
@@ -160,6 +173,23 @@ func Cs(L int, limit uint32, emit Emit) (fullCoverage bool) {
 		}
 	}
 	return true
+}
+
+// Per enumerates every entropy of size L whose bit string is periodic with
+// period p bits, for every p in [1, maxP] (2^p members per period): among them
+// all sentences that repeat one word (p = 11) or alternate between two (p = 22
+// is covered through its divisor structure only when maxP >= 22).
+func Per(L, maxP int, emit Emit) {
+	N := 8 * L
+	for p := 1; p <= maxP; p++ {
+		for v := 0; v < 1<<uint(p); v++ {
+			e := make([]byte, L)
+			for i := 0; i < N; i++ {
+				setBit(e, i, uint(v>>uint(p-1-i%p)))
+			}
+			emit(e)
+		}
+	}
 }
 
 // Rep returns a small set of representative entropies of size L: 0, 1 and 2
